@@ -50,6 +50,8 @@ ASSUMPTIONS = [
     "declared defaults are well typed (or None); argument keys are identifiers",
     "dict and set values are compared unordered (Python ==), everything else value for value and type for type; NaN = NaN",
     "Any-typed leaves hold JSON-like values whose strings the loader reads as themselves",
+    "a generated set value holds at most one NaN (elements are distinct as written): two NaN objects are two elements of a "
+    "Python set but a single one after any reload (float identity, not jsonargparse); NaN = NaN in the comparison of configurations",
     "a parser's answers do not depend on what was done with the parser object before: a case with a history is judged by the "
     "same stateless model, given the declared defaults in force when the configuration is parsed",
     "subclass-typed arguments: at a leaf or below Optional (prev_val reaches them), constructor parameters of scalar types, "
@@ -218,7 +220,16 @@ def gen_value(rng, t):
     if k == "tuplevar":
         return {"$t": [gen_value(rng, t[1]) for _ in range(rng.randint(0, 3))]}
     if k == "set":
-        return {"$s": [gen_value(rng, t[1]) for _ in range(rng.randint(0, 3))]}
+        # elements distinct as written: two NaN objects are two elements of a Python set (nan != nan) but one after the
+        # loader (a single nan object), an artefact of float identity and not of jsonargparse
+        items, seen = [], set()
+        for _ in range(rng.randint(0, 3)):
+            x = gen_value(rng, t[1])
+            key = json.dumps(x, sort_keys=True)
+            if key not in seen:
+                seen.add(key)
+                items.append(x)
+        return {"$s": items}
     if k == "dc":
         v = {}
         for fname, ftype, fdef in DC_FIELDS[t[1]]:
